@@ -160,6 +160,34 @@ def snapidx (legacy : Bool) (nx ny nz gx gy gz B : Nat) : String := Id.run do
   let rs := if cubic then toString r.toNat else "-"
   return s!"ok {total} W={w.toNat} C={w.toNat} P={p.toNat} R={rs} #idx-blocks={tag},{if legacy then "legacy" else if cubic then "both" else "plain"}"
 
+/-- cell state as a function of the cell number (the same expressions as in harness/c20_snap.cpp) -/
+def fieldState (fractions : Bool) (cid : Nat) : CellState Float :=
+  ⟨Float.ofNat (cid + 1) * 1.0e6, 100.0 + Float.ofNat cid * 3.7,
+   if fractions then (Float.ofNat (cid % 97) + 1.0) / 100.0 else 1.0e-6⟩
+
+def showState : Option (CellState Float) → String
+  | some s => s!"{CMacVerif.Util.showF s.n},{CMacVerif.Util.showF s.T},{CMacVerif.Util.showF s.xH}"
+  | none => "err"
+
+/-- `snapfields`: what the two readers reconstruct for every cell (x,y,z order) of a snapshot that
+stores the given combination of quantities -/
+def snapfields (c : Combo) (useD useP : Bool) (nx ny nz : Nat) (cubic : Bool) : String := Id.run do
+  let mp : Float := Float.ofBits CMacVerif.Gen.Units.protonMass.bits.toUInt64
+  let k : Float := Float.ofBits CMacVerif.Gen.Units.boltzmann.bits.toUInt64
+  let pcf := k / mp
+  let mut ps : String := ""
+  let mut rs : String := ""
+  for ix in [0:nx] do
+    for iy in [0:ny] do
+      for iz in [0:nz] do
+        let cid := one ny nz (ix, iy, iz)
+        let st := encode mp pcf c (fieldState c.fractions cid)
+        ps := ps ++ (if ps.isEmpty then "" else ";") ++ showState (decodePlain mp k useD useP st)
+        if cubic then
+          rs := rs ++ (if rs.isEmpty then "" else ";") ++ showState (decodeBuffered mp k st)
+  let tag := s!"fields-n{if c.numberDensity then 1 else 0}r{if c.density then 1 else 0}T{if c.temperature then 1 else 0}P{if c.pressure then 1 else 0}x{if c.fractions then 1 else 0}"
+  return s!"ok {nx * ny * nz} P={ps} R={if cubic then rs else "-"} #{tag}"
+
 end C20S
 
 open C20 C20U CMacVerif.Units in
@@ -167,6 +195,10 @@ def step (_ : Unit) : List String → Unit × String
   | ["yaml", t] => ((), yamlOp (unhex t))
   | "used" :: t :: kvs => ((), usedOp (unhex t) (pairs kvs))
   | "query" :: _ => ((), "-")
+  | ["snapfields", _hydro, nd, rho, t, pr, fr, _vel, ud, up, nx, ny, nz, _gx, _gy, _gz, _buffer] =>
+    let b := fun (x : String) => x == "1"
+    let n := (nat! nx, nat! ny, nat! nz)
+    ((), C20S.snapfields ⟨b nd, b rho, b t, b pr, b fr⟩ (b ud) (b up) n.1 n.2.1 n.2.2 (n.1 == n.2.1 && n.2.1 == n.2.2))
   | ["snapidx", mode, nx, ny, nz, gx, gy, gz, b, _buffer] =>
     ((), C20S.snapidx (mode == "legacy") (nat! nx) (nat! ny) (nat! nz) (nat! gx) (nat! gy) (nat! gz) (nat! b))
   | ["single", n] =>
